@@ -1,6 +1,7 @@
 package c10
 
 import (
+	"fmt"
 	"testing"
 
 	"github.com/canopy-network/canopy/lib"
@@ -47,5 +48,19 @@ func TestC10PrefixKeyProbe(t *testing.T) {
 	c.Desc("keys ab, ab.c, ac: pending fwd=%d rev=%d; committed fwd=%d rev=%d (3 = complete)", pf, pr, cf, cr)
 	rec.Note("prefix-key-probe", c.Descriptor())
 	c.ClassIf(cf != 3, "probe:committed-forward-iteration-skips-child-of-prefix-key")
+	// second informational fact: the top-level indexer write set is unsorted, so indexer iteration does not see
+	// indexer writes of the current (uncommitted) block, while point reads do (see check.json assumptions)
+	tx := st.NewTxn()
+	_ = tx.IndexCheckpoint(1, &lib.Checkpoint{Height: 5, BlockHash: []byte{0xaa}})
+	inTx, _ := tx.GetMostRecentCheckpoint(1)
+	_ = tx.Flush()
+	afterFlush, _ := st.GetMostRecentCheckpoint(1)
+	point, _ := st.GetCheckpoint(1, 5)
+	_, _ = st.Commit()
+	committed, _ := st.GetMostRecentCheckpoint(1)
+	note := fmt.Sprintf("checkpoint (chain 1, height 5) indexed in a nested txn: GetMostRecentCheckpoint inside the txn -> height %d; after Flush to the block's write set -> height %d (GetCheckpoint sees it: %v); after Commit -> height %d",
+		inTx.GetHeight(), afterFlush.GetHeight(), len(point) != 0, committed.GetHeight())
+	rec.Note("indexer-pending-iteration-probe", note)
+	c.ClassIf(afterFlush.GetHeight() != 5, "probe:indexer-iteration-does-not-see-uncommitted-top-level-writes")
 	c.Done(false)
 }
